@@ -1,7 +1,7 @@
 (* C03 model, part 1: the tag section of a schema and its lookup table.
    Transcribes hed/schema/hed_schema_section.py (HedSchemaTagSection) function by function.
-   Strings are code-point lists; [foldc] is the per-code-point case folding (str.casefold
-   restricted to code points whose folding is a single code point, see harness/c03.py TRUSTED).
+   Strings are code-point lists; [foldc] gives the case folding of one code point as a string
+   (str.casefold maps some code points to several, e.g. U+00DF to "ss"); [fold] = str.casefold.
    Models only -- no proofs here. *)
 From Coq Require Import List NArith Bool.
 From HV Require Import Base.Str Base.Res.
@@ -87,9 +87,9 @@ Fixpoint seqb (a b : str) : bool :=
   end.
 
 Section Fold.
-  Variable foldc : N -> N.
+  Variable foldc : N -> str.
 
-  Definition fold (s : str) : str := map foldc s.
+  Definition fold (s : str) : str := flat_map foldc s.
 
   (* dict lookup in long_form_tags: the most recent assignment wins (head of the list) *)
   Fixpoint lookup (k : str) (t : list (str * entry)) : option entry :=
@@ -145,9 +145,33 @@ Section Fold.
   Definition name_ok (n : str) : bool :=
     nonempty n && negb (N.eqb (last n 0%N) ch_slash) && negb (existsb (N.eqb ch_colon) n).
 
-  (* membership is tested on reversed strings: names of one schema share long prefixes, not suffixes *)
+  (* the immediate parent (the longest proper slash-prefix) of a name is a name; all ancestors follow
+     (Proofs/SchemaProofs.v, parents_closed).  Membership is tested on reversed strings: the names of one
+     schema share long prefixes, not suffixes. *)
   Definition parent_closed (revS : list str) (n : str) : bool :=
-    forallb (fun q => mem (rev q) revS) (slash_prefixes n).
+    match rev (slash_prefixes n) with
+    | _ :: p :: _ => mem (rev p) revS
+    | _ => true
+    end.
+
+  (* the same for a vocabulary listed in document order (every bundled file): the parent of a name is the
+     previous name or one of its ancestors -- no search through the whole vocabulary *)
+  Definition parent_of (n : str) : option str :=
+    match rev (slash_prefixes n) with _ :: p :: _ => Some p | _ => None end.
+
+  Fixpoint preorder_ok (prev : option str) (l : list str) : bool :=
+    match l with
+    | [] => true
+    | n :: r =>
+        match parent_of n, prev with
+        | None, _ => preorder_ok (Some n) r
+        | Some p, Some pv => if mem p (slash_prefixes pv) then preorder_ok (Some n) r else false
+        | Some _, None => false
+        end
+    end.
+
+  Definition parents_ok (S : list str) : bool :=
+    if preorder_ok None S then true else forallb (parent_closed (map (@rev N) S)) S.
 
   (* '#' only as the last component of a name, never as a whole name *)
   Definition hash_leaf (n : str) : bool :=
@@ -158,9 +182,26 @@ Section Fold.
     map (fun n => fold (last_comp n)) (filter (fun n => negb (is_value n)) S).
 
   Definition WFschema (S : list str) : bool :=
-    forallb name_ok S && forallb (parent_closed (map (@rev N) S)) S && forallb hash_leaf S && nodupb (short_keys S).
+    forallb name_ok S && parents_ok S && forallb hash_leaf S && nodupb (short_keys S).
 End Fold.
 
-(* the folding used by the correspondence run: ASCII lower-casing *)
+(* ASCII lower-casing *)
 Definition ascii_lower (c : N) : N :=
   if (N.leb 65 c && N.leb c 90)%bool then (c + 32)%N else c.
+
+(* str.casefold of one code point given as a table for the non-ASCII code points that change
+   (Gen/FoldTable.v: generated from CPython for every code point, translator T6) *)
+Fixpoint assoc_n (c : N) (t : list (N * str)) : option str :=
+  match t with
+  | [] => None
+  | (k, s) :: r => if N.eqb c k then Some s else assoc_n c r
+  end.
+
+Definition table_fold (tbl : list (N * str)) (c : N) : str :=
+  if N.ltb c 128 then [ascii_lower c]
+  else match assoc_n c tbl with Some s => s | None => [c] end.
+
+(* what the theorems need of a folding table: no entry is empty or produces '/' or '#' *)
+Definition table_ok (tbl : list (N * str)) : bool :=
+  forallb (fun ks => nonempty (snd ks) && negb (existsb (N.eqb ch_slash) (snd ks))
+                     && negb (existsb (N.eqb ch_hash) (snd ks))) tbl.
